@@ -419,6 +419,7 @@ func init() {
 		}
 		if replay == "" {
 			validationHandlerOracles(meta)
+			c14DirectCases(meta)
 		}
 		meta.NCases = len(cases)
 		meta.Shard = 1500
